@@ -5,6 +5,7 @@ import (
 	"go/ast"
 	"go/token"
 	"go/types"
+	"strings"
 )
 
 // ---- C15: statement splitting cuts exactly at the lexer's semicolon tokens.
@@ -180,21 +181,57 @@ func ruleC15(p *Program, r *Run) {
 	})
 	r.Check(nAppend == c.sliceSites(fd, info), "C15/provenance", fn+" every slice of the source is appended to the result", p.Pos(fd.Pos()), "all pieces are kept", "a piece of the source is sliced but not appended (or appended from something else): text would be lost")
 
-	// Parse's own splitter: same token kind on the tokens of Scan(query)
-	ssFd := p.MustFunc(pkg, "parser.splitSemi")
-	r.Saw(FuncName(pkg, ssFd))
-	kinds := map[string]bool{}
-	ast.Inspect(ssFd.Body, func(n ast.Node) bool {
-		if b, ok := n.(*ast.BinaryExpr); ok && (b.Op == token.EQL || b.Op == token.NEQ) {
-			if name := constName(info, b.Y); name != "" {
-				if f := selField(info, b.X); f != nil && f.Name() == "Kind" {
-					kinds[name] = true
+	// Parse's own splitter: the function that hands Parse one statement's tokens must look for TokenSemi only.
+	pFd0 := p.MustFunc(pkg, "Parse")
+	var splitter *types.Func
+	ast.Inspect(pFd0.Body, func(n ast.Node) bool {
+		as, ok := n.(*ast.AssignStmt)
+		if !ok || len(as.Rhs) != 1 || len(as.Lhs) != 1 || splitter != nil {
+			return true
+		}
+		call, ok := as.Rhs[0].(*ast.CallExpr)
+		if !ok || TypeStr(info.TypeOf(as.Lhs[0])) != "*parser.parser" {
+			return true
+		}
+		if _, isLoop := p.Parent(p.Parent(as)).(*ast.ForStmt); !isLoop {
+			return true
+		}
+		splitter = Callee(info, call)
+		if splitter != nil {
+			for _, a := range call.Args {
+				if name := constName(info, a); name != "" && name != "TokenSemi" {
+					splitter = nil
 				}
 			}
 		}
 		return true
 	})
-	r.Check(len(kinds) == 1 && kinds["TokenSemi"], "C15/parse-split", FuncName(pkg, ssFd)+" splits on TokenSemi only", p.Pos(ssFd.Pos()), "the parser's statement splitter tests exactly the lexer's semicolon token kind", fmt.Sprintf("the parser's statement splitter tests token kinds %v, not exactly TokenSemi: Parse and SplitStatements would disagree on statement boundaries", keysOf(kinds)))
+	kinds := map[string]bool{}
+	ssName := "?"
+	if splitter != nil {
+		ssName = splitter.Name()
+		if ssFd := p.FuncDecl(pkg, "parser."+splitter.Name()); ssFd != nil {
+			r.Saw(FuncName(pkg, ssFd))
+			ast.Inspect(ssFd.Body, func(n ast.Node) bool {
+				switch v := n.(type) {
+				case *ast.BinaryExpr:
+					if v.Op == token.EQL || v.Op == token.NEQ {
+						if name := constName(info, v.Y); strings.HasPrefix(name, "Token") {
+							kinds[name] = true
+						}
+					}
+				case *ast.CaseClause:
+					for _, e := range v.List {
+						if name := constName(info, e); strings.HasPrefix(name, "Token") {
+							kinds[name] = true
+						}
+					}
+				}
+				return true
+			})
+		}
+	}
+	r.Check(splitter != nil && len(kinds) == 1 && kinds["TokenSemi"], "C15/parse-split", "parser.Parse statement splitter ("+ssName+") splits on TokenSemi only", p.Pos(pFd0.Pos()), "the parser's statement splitter tests exactly the lexer's semicolon token kind and nothing else (no bracket nesting)", fmt.Sprintf("the function that cuts Parse's input into statements looks at token kinds %v, not exactly TokenSemi: Parse and SplitStatements would disagree on statement boundaries (e.g. a `;` inside an unclosed bracket)", keysOf(kinds)))
 	// Parse feeds it the tokens of Scan(query)
 	pFd := p.MustFunc(pkg, "Parse")
 	r.Saw(FuncName(pkg, pFd))
